@@ -35,7 +35,10 @@ except ImportError:
     class _FixedOffset(tzinfo):
 
         def __init__(self, offset, name):
-            self.__offset = timedelta(minutes=offset)
+            if isinstance(offset, timedelta):
+                self.__offset = offset
+            else:
+                self.__offset = timedelta(minutes=offset)
             self.__name = name
 
         def __getinitargs__(self):
